@@ -906,6 +906,14 @@ func fwdElement(t *rapid.T, forVal string, tags []string) (string, []string) {
 	if nOther > 0 {
 		tags = append(tags, fmt.Sprintf("fwd-params-%d", nOther+1))
 	}
+	if rare(t, 1, 5, "ext") {
+		// extension parameters (RFC 7239 section 5.5) after the standard ones: for= stays among the first four parameters, so the
+		// element still designates its address however many parameters follow
+		for i, n := 0, gen.IntR(t, 1, 3, "next"); i < n; i++ {
+			params = append(params, gen.Pick(t, []string{"secret=abc", "ext=1", `x-id="7"`, "via=_proxy"}, "extparam"))
+		}
+		tags = append(tags, fmt.Sprintf("fwd-extension-params-total-%d", len(params)))
+	}
 	sep := ";"
 	if nOther > 0 && rare(t, 1, 4, "semisp") {
 		sep = gen.Pick(t, []string{"; ", " ;", " ; "}, "semi")
